@@ -1,4 +1,5 @@
 /- Native line-protocol driver: one operation per input line, one result per output line. -/
+
 import CLModel.Ops.Rx
 import CLModel.Ops.C20
 import CLModel.Ops.C01
@@ -20,9 +21,10 @@ import CLModel.Ops.C11
 import CLModel.Ops.C07
 import CLModel.Ops.C13
 import CLModel.Ops.C10P
+import CLModel.Ops.C12
 
 def allOps : List (String × (List String → String)) :=
-  Ops.Rx.ops ++ Ops.C20.ops ++ Ops.C01.ops ++ Ops.C04.ops ++ Ops.C05.ops ++ Ops.C19.ops ++ Ops.C03.ops ++ Ops.C10.ops ++ Ops.C16.ops ++ Ops.C17.ops ++ Ops.C14.ops ++ Ops.C06.ops ++ Ops.C15.ops ++ Ops.C18.ops ++ Ops.C08.ops ++ Ops.C09.ops ++ Ops.C02.ops ++ Ops.C11.ops ++ Ops.C07.ops ++ Ops.C13.ops ++ Ops.C10P.ops
+  Ops.Rx.ops ++ Ops.C20.ops ++ Ops.C01.ops ++ Ops.C04.ops ++ Ops.C05.ops ++ Ops.C19.ops ++ Ops.C03.ops ++ Ops.C10.ops ++ Ops.C16.ops ++ Ops.C17.ops ++ Ops.C14.ops ++ Ops.C06.ops ++ Ops.C15.ops ++ Ops.C18.ops ++ Ops.C08.ops ++ Ops.C09.ops ++ Ops.C02.ops ++ Ops.C11.ops ++ Ops.C07.ops ++ Ops.C13.ops ++ Ops.C10P.ops ++ Ops.C12.ops
 
 /-- names of all operations (the harness checks that they are pairwise distinct) -/
 def opNames : String := " ".intercalate (allOps.map (·.1))
